@@ -38,7 +38,19 @@
      "jpg_caches_writable"   hypothetical (mutant class, used to show JpgOnlyOnFrozen is not vacuous):
                              `.jpg` caches the encoding of a writable image.
      "rw_in_place"           hypothetical (mutant class, shows RoStaysRo is not vacuous): `.rw` of a read-only image
-                             flips flags.writeable and returns self. *)
+                             flips flags.writeable and returns self.
+
+   CONFIGURATIONS (vlib/c10.py runs them):
+     FrameViews_quick / _thorough   Defects = {}, MaxOps = 3 / 4, all 12 start frames: TLC proves every invariant and
+                                    [][RoStaysRoAct]_vars for every operation sequence of that length
+     FrameViews_defect_stale / _jpg / _rw   one defect on: TLC must report Fresh / JpgOnlyOnFrozen / RoStaysRo violated
+                                    (stale: start rw, ro_x(1), Poke(1), ro_x(1) - replayed on the code by the harness)
+     FrameViews_cover_quick / _thorough     the code as it stands (Defects = genuine ones): VIEW viewCover +
+                                    ACTION_CONSTRAINT EmitCover print one line per transition of the state graph
+                                    (path to the source state, label, successor state) for the replay harness
+     FrameViews_sim                 -simulate behaviours of 12 operations, written one file per behaviour
+   The harness rewrites StartKinds / StartFmts / Defects of the cover and sim configurations into a scratch copy
+   (one TLC run per group of start frames; Defects = {} once the genuine defect is repaired in the code). *)
 EXTENDS Integers, Sequences, FiniteSets, TLC
 
 CONSTANTS StartKinds,   \* subset of {"rw", "ro", "lazy", "now"}: how the first frame is made (see Init)
